@@ -138,6 +138,10 @@ def aimed_case(rng):
             if not isinstance(q0[f], str):
                 q0[f] = gen_str(rng)
     uid = pick(rng, ['p1', 'uid-1', 'Ü', 'a b', '1', 'p2', 'p3', 7, 42])
+    if kind == 'str' and rng.random() < 0.12:
+        # text that is not NFC-normalised (a combining mark, the OHM SIGN): stored and matched code point by code point
+        from gen import NON_NFC
+        q0[pick(rng, ['resource', 'action', 'subject'])] = pick(rng, NON_NFC) + pick(rng, ['', 'x', ':1'])
     p = strip_unsafe(gen_policy(rng, uid, q0, kind, hit=True))
     p['effect'] = pick(rng, ['allow', 'allow', 'deny', 'ALLOW', 'permit'])
     p['desc'] = pick(rng, [None, 'd', 'Описание', ''])
